@@ -363,7 +363,7 @@ func c10(c *wk.Ctx) {
 
 	// ---- (3) single-point corruptions and truncations
 	nMU := c.N(250, 2500)
-	repl := []byte("\r\n$*:+-09a ")
+	repl := []byte("\r\n$*:+-09a _xXbeE.") // incl. the characters number parsers may give a meaning to
 	var nValid, nMust, nUncl int64
 	for i := 0; i < nMU; i++ {
 		var base []byte
@@ -433,6 +433,24 @@ func c10(c *wk.Ctx) {
 				m := append(append(append([]byte{}, base[:pos]...), ch), base[pos:]...)
 				judge(fmt.Sprintf("ins@%d=%q", pos, ch), m)
 			}
+		}
+	}
+	// numbers written the way general-purpose integer parsers accept them but RESP does not
+	for _, lit := range []string{":0x10\r\n", ":1_000\r\n", ":0b11\r\n", ":0o17\r\n", ":1e3\r\n", ":1.0\r\n", ":0X1F\r\n", ":-0x1\r\n", ":5_\r\n", ":_5\r\n",
+		"$0x3\r\nabc\r\n", "$1_0\r\n0123456789\r\n", "$0b11\r\nabc\r\n", "$3.0\r\nabc\r\n", "$1e1\r\n0123456789\r\n",
+		"*0x1\r\n:1\r\n", "*1_0\r\n:1\r\n:1\r\n:1\r\n:1\r\n:1\r\n:1\r\n:1\r\n:1\r\n:1\r\n:1\r\n", "*0b1\r\n:1\r\n", "*1e0\r\n:1\r\n"} {
+		base, sh := []byte(lit), "literal"
+		_ = base
+		ref := refresp.Decode([]byte(lit))
+		r.Case("lit|" + lit[:2] + "|" + fmt.Sprint(ref.Class))
+		r.Count("number_syntax_literals", 1)
+		if ref.Class != refresp.MustError {
+			r.Inconcl(fmt.Sprintf("reference codec does not classify %q as malformed", lit))
+			continue
+		}
+		dv, _, derr, pan := toolDecode([]byte(lit), 4096)
+		if pan == "" && derr == nil {
+			r.Violationf("C10|malformed-accepted|class=non-decimal-number", map[string]interface{}{"input": fmt.Sprintf("%q", lit), "shape": sh}, "input %q (a number in a syntax RESP does not have) decoded to a value %q", lit, trunc(refresp.Encode(dv), 120))
 		}
 	}
 	r.Count("mutants_valid_by_reference", nValid)
